@@ -54,22 +54,29 @@ func miscFrame(id uint32, variant int, kind string, root string, handles []strin
 		}
 		return "/" + s
 	}
-	n := 23
+	n := 25
 	switch variant % n {
-	// cross-kind requests on handles of every kind (handles[len-3] read-only file, [len-2] write-only file, [len-1] directory):
+	// short reads (crossing the end of the file) on the read-only and on the read-write handle: the DATA reply carries exactly
+	// the bytes read, with and without the allocator
+	case 23:
+		return fRead(id, handles[len(handles)-1], 1, 64) // the 3-byte file nobody writes: 2 bytes come back
+	case 24:
+		return fRead(id, handles[len(handles)-1], 0, 300)
+	// cross-kind requests on handles of every kind (handles[len-4] read-only file, [len-3] write-only file, [len-2] directory;
+	// [len-1] is a read-only handle of the small file "aux"):
 	// each must be answered once, in order, with a type that is legal for the REQUEST
 	case 17:
-		return fIDStr(tReaddir, id, handles[len(handles)-3])
+		return fIDStr(tReaddir, id, handles[len(handles)-4])
 	case 18:
-		return fIDStr(tReaddir, id, handles[len(handles)-2])
+		return fIDStr(tReaddir, id, handles[len(handles)-3])
 	case 19:
-		return fRead(id, handles[len(handles)-1], 0, 8)
-	case 20:
-		return fWrite(id, handles[len(handles)-1], 0, []byte("x"))
-	case 21:
 		return fRead(id, handles[len(handles)-2], 0, 8)
+	case 20:
+		return fWrite(id, handles[len(handles)-2], 0, []byte("x"))
+	case 21:
+		return fRead(id, handles[len(handles)-3], 0, 8)
 	case 22:
-		return fWrite(id, handles[len(handles)-3], 0, []byte("x"))
+		return fWrite(id, handles[len(handles)-4], 0, []byte("x"))
 	case 0:
 		return fIDStr(tStat, id, p("aux"))
 	case 1:
@@ -171,12 +178,16 @@ func runPipeline(t testing.TB, tr *tracer, o srvOpts, sc scenario, salt int, dif
 		handles[i] = f.Handle
 	}
 	// three more handles for cross-kind requests: a read-only file, a write-only file, a directory
+	auxPath := "/aux"
+	if o.kind == "server" {
+		auxPath = filepath.Join(root, "aux")
+	}
 	for i, fr := range [][]byte{fOpen(20, fpath(1), 1, wattrs{}), fOpen(21, fpath(1), 2, wattrs{}), fIDStr(tOpendir, 22, func() string {
 		if o.kind == "server" {
 			return filepath.Join(root, "d")
 		}
 		return "/d"
-	}())} {
+	}()), fOpen(23, auxPath, 1, wattrs{})} {
 		f, ok := s.call(fr)
 		if !ok || f.Typ != tHandle {
 			t.Fatalf("setup open %d failed: %+v", i, f)
